@@ -31,6 +31,20 @@ BEGIN_C_DECLS
  */
 #  define PARSEC_ATOMIC_ACCESS_TO_INTERNALS_ALLOWED 1
 
+#  if defined(PARSEC_VERIF)
+/* Verification hook (guard PARSEC_VERIF): every atomic primitive first calls the
+ * registered callback, which a cooperative test scheduler uses as a switch point. */
+#    define PARSEC_VERIF_K_FENCE 0
+#    define PARSEC_VERIF_K_CAS   1
+#    define PARSEC_VERIF_K_RMW   2
+#    define PARSEC_VERIF_K_SPIN  3
+extern void (*parsec_verif_yield_cb)(int kind, volatile void *addr);
+#    define PARSEC_VERIF_YIELD(kind, addr) \
+        do { if( parsec_verif_yield_cb ) parsec_verif_yield_cb((kind), (volatile void*)(addr)); } while(0)
+#  else
+#    define PARSEC_VERIF_YIELD(kind, addr) do {} while(0)
+#  endif  /* defined(PARSEC_VERIF) */
+
 #  if defined(PARSEC_ATOMIC_USE_C11_ATOMICS)
 #    include "atomic-c11.h"
 #  else /* defined(PARSEC_ATOMIC_USE_C11_ATOMICS) */
